@@ -73,7 +73,7 @@ def run(ctx):
                     f = mm.group(1)
                     f = os.path.relpath(f, root) if f.startswith("/") else os.path.normpath(f)
                     vk.add((f, int(mm.group(2)), mm.group(4)))
-            other["go vet -vettool"] = (vk, bool(re.search(r"panic:|internal error", err + out)))
+            other["go vet -vettool"] = (vk, lib.crash_in(err + "\n" + out))
             sub = os.path.join(root, "w0000", "gen")
             if os.path.isdir(sub):
                 rs = lib.run_binary(ctx, sub, flags=flags, patterns=["."])
